@@ -42,8 +42,19 @@ def _worker(prop, job):
                     if fn.startswith(root) or os.path.realpath(fn).startswith(root):
                         seen.add((os.path.basename(fn), co.co_name, co.co_firstlineno))
             sys.setprofile(prof)
+        lcov = None
+        if os.environ.get("RVERIF_LINECOV"):
+            # line/branch map of what the job executes in the code under contract (coverage.py, if present; a development aid)
+            import coverage
+            from .install import REPO
+            lcov = coverage.Coverage(data_file=os.path.join(os.environ["RVERIF_LINECOV"], ".coverage"), data_suffix=True, branch=True,
+                                     include=[os.path.join(os.path.realpath(REPO), "rsome", "*")])
+            lcov.start()
         mod = importlib.import_module(f"rverif.props.{prop.lower()}")
         obs = mod.run_job(job)
+        if lcov is not None:
+            lcov.stop()
+            lcov.save()
         if cov:
             sys.setprofile(None)
             with open(cov, "a") as f:
